@@ -79,8 +79,8 @@ theorem C02_full (sub : Nat → Nat → Bool) (n : Nat) (body : List Stmt) (w : 
     toCall (PS.bodyStmts Cfg.python sub n body w) = Py.callBody sub n body w :=
   C02_call_partial Cfg.python sub n body w (confL_python Cfg.python rfl rfl body) hs
 
-/-- **Today's code** (`Current.cfg`, both flags off): full agreement on programs without a jump in a loop's `else`
-clause and with single-manager `with` statements whose `__enter__` does not raise. -/
+/-- **Today's code** (`Current.cfg`: loop-else repaired, `with` as coded): full agreement on programs with
+single-manager `with` statements whose `__enter__` does not raise. -/
 theorem C02_current_partial (sub : Nat → Nat → Bool) (n : Nat) (body : List Stmt) (w : World)
     (hc : confL Current.cfg body = true) (hs : freeJumpL body = false) :
     toCall (PS.bodyStmts Current.cfg sub n body w) = Py.callBody sub n body w :=
@@ -110,8 +110,8 @@ def eqSub : Nat → Nat → Bool := fun a b => a == b
 
 /-- `while c: (while c': T(1) else: break); T(2)` – Python leaves the outer loop, pyscript drops the marker -/
 def cexLoopElse : List Stmt := [.while_ 10 [.while_ 11 [.tick 1] [.brk], .tick 2] [], .tick 3]
-theorem C02_cex_loop_else_break :
-    (PS.bodyStmts Current.cfg eqSub 20 cexLoopElse { tape := [1, 0, 0] }).2.log ≠ (Py.callBody eqSub 20 cexLoopElse { tape := [1, 0, 0] }).2.log := by decide
+theorem C02_regress_loop_else_break :
+    (PS.bodyStmts Cfg.preFix eqSub 20 cexLoopElse { tape := [1, 0, 0] }).2.log ≠ (Py.callBody eqSub 20 cexLoopElse { tape := [1, 0, 0] }).2.log := by decide
 
 /-- `with A, B: raise E` where B suppresses: Python's A sees no exception; pyscript hands the exception to both -/
 def cexWithSuppress : List Stmt :=
